@@ -106,6 +106,12 @@ def FirstGrads : {a : Idx} → {ea : Enc a} → {c : Idx} → {ec : Enc c} → C
   | _, _, _, _, .cons _ f _ _ _ wg rest, x, g, ws, bs =>
     ws.getLast? = some (wg x ((gnet rest).bwd (f x) g)).1 ∧ bs.getLast? = some (wg x ((gnet rest).bwd (f x) g)).2
 
+/-- every weight / bias gradient the walk records, in walk order (last layer first): each layer's gradient
+    function applied to the gradient the layers after it hand back -/
+def allGrads : {a : Idx} → {ea : Enc a} → {c : Idx} → {ec : Enc c} → Chain a ea c ec → V a.T → V c.T → List (WGrad ℝ × BGrad ℝ)
+  | _, _, _, _, .nil _ _, _, _ => []
+  | _, _, _, _, .cons _ f _ _ _ wg rest, x, g => allGrads rest (f x) g ++ [wg x ((gnet rest).bwd (f x) g)]
+
 /-- **the reverse walk over the chain**: whatever precedes it in the recorded trace (`k` earlier layers),
     walking its layers in reverse from `ec g` succeeds, ends in `ea (gnet.bwd x g)`, and records for the
     chain's first layer the weight gradient of the gradient the rest handed back -/
@@ -115,11 +121,11 @@ theorem back_walk : ∀ {a : Idx} {ea : Enc a} {c : Idx} {ec : Enc c} (ch : Chai
     t.act = pa ++ (ea x :: acts ch x) ++ qa → t.pre = pp ++ pres ch x ++ qp → t.recs = pr ++ recs ch x ++ qr →
     ∃ ws bs gs, backSpec t (List.zip (List.range' k (layers ch).length) (layers ch)).reverse (ec g) = .ok (ws, bs, gs) ∧
       gs.getLast?.getD (ec g) = ea ((gnet ch).bwd x g) ∧ gs.length = (layers ch).length ∧
-      FirstGrads ch x g ws bs
-  | _, _, _, _, .nil _ _, x, g, k, t, pa, pp, pr, _, _, _, _, _, _, _, _, _, _ => ⟨[], [], [], rfl, rfl, rfl, trivial⟩
+      FirstGrads ch x g ws bs ∧ ws = (allGrads ch x g).map (·.1) ∧ bs = (allGrads ch x g).map (·.2)
+  | _, _, _, _, .nil _ _, x, g, k, t, pa, pp, pr, _, _, _, _, _, _, _, _, _, _ => ⟨[], [], [], rfl, rfl, rfl, trivial, rfl, rfl⟩
   | _, ea, _, ec, @Chain.cons _ _ _ _ eb _ l f bwd pre rc wg rest, x, g, k, t, pa, pp, pr, qa, qp, qr, h, hpa, hpp, hpr, hact, hpre, hrec => by
     have hlen := lengths rest (f x)
-    obtain ⟨ws1, bs1, gs1, h1, h2, h3, _⟩ := back_walk rest (f x) g (k + 1) t
+    obtain ⟨ws1, bs1, gs1, h1, h2, h3, _, h5, h6⟩ := back_walk rest (f x) g (k + 1) t
       (pa ++ [ea x]) (pp ++ [pre x]) (pr ++ [rc x]) qa qp qr h.2.2 (by simp [hpa]) (by simp [hpp]) (by simp [hpr])
       (by rw [hact]; simp [acts]) (by rw [hpre]; simp [pres]) (by rw [hrec]; simp [recs])
     have hsplit : (List.zip (List.range' k (layers (Chain.cons (ea := ea) (eb := eb) l f bwd pre rc wg rest)).length)
@@ -144,10 +150,12 @@ theorem back_walk : ∀ {a : Idx} {ea : Enc a} {c : Idx} {ec : Enc c} (ch : Chai
       rw [List.getElem?_append_left (by simp [recs]; omega), List.getElem?_append_right (by omega)]
       simp [hpr, recs]
     simp only [backSpec, hga, hgp, hgr, h.2.1]
-    refine ⟨_, _, _, rfl, ?_, ?_, ?_⟩
+    refine ⟨_, _, _, rfl, ?_, ?_, ?_, ?_, ?_⟩
     · simp [gnet, GNet.bwd]
     · simp [layers, h3]
     · simp [FirstGrads]
+    · simp [allGrads, h5]
+    · simp [allGrads, h6]
 
 /-! ### the whole network -/
 
@@ -163,17 +171,17 @@ theorem network_gradient {a : Idx} {ea : Enc a} {c : Idx} {ec : Enc c} (n : Netw
       n.forward (ea x) = .ok t ∧ t.act.getLast? = some (ec ((gnet ch).fwd x)) ∧
       n.backward (ec g) t = .ok (ws, bs, gs) ∧ gs.getLast? = some (ea ((gnet ch).bwd x g)) ∧
       IsGrad (ℓ ∘ (gnet ch).fwd) x ((gnet ch).bwd x g) ∧
-      FirstGrads ch x g ws bs := by
+      FirstGrads ch x g ws bs ∧ ws = (allGrads ch x g).map (·.1) ∧ bs = (allGrads ch x g).map (·.2) := by
   have hf := forward_eq_runRange n hc hl (ea x)
   unfold Network.runRange at hf
   rw [hn, forward_fold ch x hr] at hf
   simp only [] at hf
-  obtain ⟨ws, bs, gs, h1, h2, h3, h4⟩ := back_walk ch x g 0
+  obtain ⟨ws, bs, gs, h1, h2, h3, h4, h5, h6⟩ := back_walk ch x g 0
     { pre := pres ch x, act := ea x :: acts ch x, recs := recs ch x } [] [] [] [] [] [] hr rfl rfl rfl (by simp) (by simp) (by simp)
   have hb := backward_eq_backSpec n hc (ec g) { pre := pres ch x, act := ea x :: acts ch x, recs := recs ch x }
   rw [hn, List.range_eq_range', h1] at hb
   simp only [] at hb
-  refine ⟨_, ws, bs, ec g :: gs, hf, acts_last ch x, hb, ?_, GNet.grad (gnet ch) x hok ℓ g hg, h4⟩
+  refine ⟨_, ws, bs, ec g :: gs, hf, acts_last ch x, hb, ?_, GNet.grad (gnet ch) x hok ℓ g hg, h4, h5, h6⟩
   rw [List.getLast?_cons, ← h2]
 
 /-- the gradient of a layer's parameters `θ` in front of any heterogeneous stack: the layer's parameter-VJP
